@@ -671,7 +671,7 @@ pub fn format_code(
 		ConvTypeV::Percent => tmp_out.push('%'),
 	}
 
-	let padding = width.saturating_sub(tmp_out.len() as u16);
+	let padding = usize::from(width).saturating_sub(tmp_out.chars().count());
 
 	if !clfags.left {
 		for _ in 0..padding {
